@@ -21,8 +21,22 @@ Extracted decisions (all from the Python `ast`, sqlframe is never imported)
   * `_handle_join_column_names_only`: left column = first (left-to-right) candidate CTE having the key, `break`
                                                      -> `keyLeftmostFirst`
   * `crossJoin`: `self.join.__wrapped__(self, other, how="cross")`                     -> `crossJoinHow`
+  * name branch: which rendering of a column name (`Column.alias_or_name`, quote-preserving, vs
+    `expression.alias_or_name`, sqlglot's plain name) each site uses: the select list, the key list, and the
+    right-hand side of the de-duplication test        -> `selectNameRender`, `keyNameRender`, `dedupKeyRender`
 
-Anything outside this sub-language raises Untranslatable: Gen/Joins.lean is removed and every C02 theorem stops building.
+Gen/JoinMerge.lean (second module):
+  * `_add_ctes_to_expression`: the loop over the other side's CTEs as a small symbolic execution: are earlier
+    renames applied to a CTE before its name is tested, is the rename recorded under the OLD name (the alias is
+    tracked through `cte.set("alias", ..)`), is the new name added to the set of taken names, is every CTE
+    appended                                          -> `mergeRenamesBeforeTest`, `mergeKeyIsOldName`, `mergeRecordsNewName`
+  * `_expand_star`: `*` = the current select list; `t.*` = the columns of CTE t, qualified with t or bare
+                                                     -> `starPlainFromSelect`, `starQualifiedByCte`
+  * `_ensure_and_normalize_cols`: stars are expanded before `_resolve_ambiguous_columns` -> `expandBeforeResolve`
+  * `select`: star positions are removed from the display-name lists back to front  -> `starPopsBackToFront`
+
+Anything outside this sub-language raises Untranslatable: the module is replaced by its committed baseline and the
+obligation is reported broken.
 """
 from __future__ import annotations
 
@@ -323,12 +337,16 @@ def _join_parts(fn: ast.FunctionDef) -> t.Dict[str, t.Any]:
             and ast.unparse(jcn.generators[0].iter) == "join_column_pairs"):
         raise Untranslatable(ob, f"unsupported join_column_names {ast.unparse(jcn)[:100]!r}")
     e = jcn.elt
-    plain_names = {"left_col.alias_or_name": "Side.self", "right_col.alias_or_name": "Side.other"}
+    plain_names = {"left_col.alias_or_name": "Side.self", "right_col.alias_or_name": "Side.other",
+                   "left_col.expression.alias_or_name": "Side.self", "right_col.expression.alias_or_name": "Side.other"}
+    key_render = {"left_col.alias_or_name": "Render.quoted", "right_col.alias_or_name": "Render.quoted",
+                  "left_col.expression.alias_or_name": "Render.plain", "right_col.expression.alias_or_name": "Render.plain"}
     if not isinstance(e, ast.IfExp):
         # no COALESCE at all: every key is taken as a plain name
         if ast.unparse(e) not in plain_names:
             raise Untranslatable(ob, f"unsupported join_column_names element {ast.unparse(e)[:100]!r}")
         d["coalesceType"] = None
+        d["keyNameRender"] = key_render[ast.unparse(e)]
         d["plainKeyFrom"] = plain_names[ast.unparse(e)]
         d["keyAliasFrom"] = plain_names[ast.unparse(e)]
         d["coalesceArgs"] = []
@@ -339,6 +357,7 @@ def _join_parts(fn: ast.FunctionDef) -> t.Dict[str, t.Any]:
         if ast.unparse(e.orelse) not in plain_names:
             raise Untranslatable(ob, f"unsupported plain key {ast.unparse(e.orelse)!r}")
         d["plainKeyFrom"] = plain_names[ast.unparse(e.orelse)]
+        d["keyNameRender"] = key_render[ast.unparse(e.orelse)]
         c = e.body
         if not (isinstance(c, ast.Call) and isinstance(c.func, ast.Attribute) and c.func.attr == "alias" and len(c.args) == 1 and ast.unparse(c.args[0]) in plain_names
                 and isinstance(c.func.value, ast.Call) and isinstance(c.func.value.func, ast.Name) and c.func.value.func.id == "coalesce"):
@@ -360,15 +379,43 @@ def _join_parts(fn: ast.FunctionDef) -> t.Dict[str, t.Any]:
     if len(scn) != 3:
         raise Untranslatable(ob, f"{len(scn)} assignments to select_column_names in the name branch (3 expected)")
     first, dedup, final = scn
-    if not (isinstance(first, ast.ListComp) and ast.unparse(first.generators[0].iter) == "select_columns" and not first.generators[0].ifs):
+    if not (isinstance(first, ast.ListComp) and len(first.generators) == 1 and ast.unparse(first.generators[0].iter) == "select_columns"
+            and ast.unparse(first.generators[0].target) == "column" and not first.generators[0].ifs):
         raise Untranslatable(ob, f"unsupported initial select_column_names {ast.unparse(first)[:80]!r}")
+    # how each select column is named: `column.alias_or_name` (quote-preserving) or `column.expression.alias_or_name`
+    # (plain), optionally guarded by the star test `... if not isinstance(column.expression.this, exp.Star) else column.sql()`
+    fe = first.elt
+    if isinstance(fe, ast.IfExp):
+        if ast.unparse(fe.test) != "not isinstance(column.expression.this, exp.Star)" or ast.unparse(fe.orelse) != "column.sql()":
+            raise Untranslatable(ob, f"unsupported select column naming {ast.unparse(fe)[:100]!r}")
+        fe = fe.body
+    sel_render = {"column.alias_or_name": "Render.quoted", "column.expression.alias_or_name": "Render.plain"}
+    if ast.unparse(fe) not in sel_render:
+        raise Untranslatable(ob, f"unsupported select column naming {ast.unparse(fe)[:100]!r}")
+    d["selectNameRender"] = sel_render[ast.unparse(fe)]
     if not (isinstance(dedup, ast.ListComp) and ast.unparse(dedup.elt) == "column_name" and ast.unparse(dedup.generators[0].iter) == "select_column_names"
-            and len(dedup.generators[0].ifs) == 1):
+            and ast.unparse(dedup.generators[0].target) == "column_name" and len(dedup.generators[0].ifs) == 1):
         raise Untranslatable(ob, f"unsupported de-duplication {ast.unparse(dedup)[:80]!r}")
     cond = dedup.generators[0].ifs[0]
-    if not (isinstance(cond, ast.Compare) and len(cond.ops) == 1 and isinstance(cond.ops[0], ast.NotIn) and ast.unparse(cond.left) == "column_name"
-            and isinstance(cond.comparators[0], ast.ListComp) and ast.unparse(cond.comparators[0].generators[0].iter) == "join_column_names"):
+    if not (isinstance(cond, ast.Compare) and len(cond.ops) == 1 and isinstance(cond.ops[0], ast.NotIn) and ast.unparse(cond.left) == "column_name"):
         raise Untranslatable(ob, f"unsupported de-duplication test {ast.unparse(cond)[:80]!r}")
+    # the right-hand side: a comprehension (list / set / generator), inline or bound to a name earlier in the branch,
+    # over `join_column_names` (the keys as listed) or over `join_column_pairs` (the key columns themselves)
+    rhs = cond.comparators[0]
+    if isinstance(rhs, ast.Name):
+        bound = [v for v in (_assign_to(s, rhs.id) for s in name_body) if v is not None]
+        if len(bound) != 1:
+            raise Untranslatable(ob, f"de-duplication compares with {rhs.id}, assigned {len(bound)} times")
+        rhs = bound[0]
+    if not (isinstance(rhs, (ast.ListComp, ast.SetComp, ast.GeneratorExp)) and len(rhs.generators) == 1 and not rhs.generators[0].ifs):
+        raise Untranslatable(ob, f"unsupported de-duplication test {ast.unparse(cond)[:80]!r}")
+    it, tg, el = ast.unparse(rhs.generators[0].iter), ast.unparse(rhs.generators[0].target), ast.unparse(rhs.elt)
+    if it == "join_column_names" and el in (f"{tg}.alias_or_name if not isinstance({tg}, str) else {tg}", f"{tg} if isinstance({tg}, str) else {tg}.alias_or_name"):
+        d["dedupKeyRender"] = "none"   # the entries of join_column_names as they are (a COALESCE item by its quote-preserving alias)
+    elif it == "join_column_pairs" and tg in ("(left_col, right_col)", "(left_col, _)") and el in key_render and el.startswith("left_col"):
+        d["dedupKeyRender"] = "some " + key_render[el]
+    else:
+        raise Untranslatable(ob, f"unsupported de-duplication test {ast.unparse(cond)[:120]!r}")
     d["dedupKeysOnly"] = True
     fs = ast.unparse(final)
     if fs == "join_column_names + select_column_names":
@@ -436,10 +483,11 @@ def _key_leftmost(fn: ast.FunctionDef) -> bool:
     for n in ast.walk(fn):
         if isinstance(n, ast.For) and ast.unparse(n.iter) == "potential_ctes":
             ifs = [s for s in n.body if isinstance(s, ast.If)]
-            if len(ifs) == 1 and ast.unparse(ifs[0].test) in (
-                "join_column.alias_or_name in cte.this.named_selects",
-                "join_column.expression.alias_or_name in cte.this.named_selects",  # same test on the unquoted name
-            ):
+            lookup_render = {"join_column.alias_or_name in cte.this.named_selects": "Render.quoted",
+                             "join_column.expression.alias_or_name in cte.this.named_selects": "Render.plain"}
+            if len(ifs) == 1 and ast.unparse(ifs[0].test) in lookup_render:
+                # `named_selects` are plain names: the two renderings differ for a key that needs quoting
+                KEY_LOOKUP[0] = lookup_render[ast.unparse(ifs[0].test)]
                 has_break = any(isinstance(x, ast.Break) for x in ifs[0].body)
                 lc = [ast.unparse(s.value) for s in ifs[0].body if isinstance(s, ast.Assign) and ast.unparse(s.targets[0]) == "left_column"]
                 rc = [ast.unparse(s.value) for s in ifs[0].body if isinstance(s, ast.Assign) and ast.unparse(s.targets[0]) == "right_column"]
@@ -452,6 +500,9 @@ def _key_leftmost(fn: ast.FunctionDef) -> bool:
         if isinstance(n, ast.For) and ast.unparse(n.iter) in ("reversed(potential_ctes)", "potential_ctes[::-1]"):
             return list_reversed
     raise Untranslatable(ob, "loop over potential_ctes not found")
+
+
+KEY_LOOKUP = ["Render.plain"]
 
 
 def _display_of_string(fn: ast.FunctionDef) -> bool:
@@ -545,6 +596,16 @@ def gen_joins(repo: str) -> str:
     o.append(f"def stringDisplayIsColumnPart : Bool := {str(d['displayColumnPart']).lower()}")
     o.append("")
     o.append("inductive Side | self | other deriving DecidableEq, Repr")
+    o.append("/-- the two renderings of a column name: `Column.alias_or_name` (quote-preserving: a name that is not a plain identifier")
+    o.append("    comes with the input dialect's quotes) and `expression.alias_or_name` (sqlglot's plain name) -/")
+    o.append("inductive Render | quoted | plain deriving DecidableEq, Repr")
+    o.append("/-- name-join: how the select columns are named, how a plain key is listed in `join_column_names`, and what the")
+    o.append("    de-duplication compares a select column name with (`none`: the entries of `join_column_names` as listed) -/")
+    o.append(f"def selectNameRender : Render := {d['selectNameRender']}")
+    o.append(f"def keyNameRender : Render := {d['keyNameRender']}")
+    o.append(f"def dedupKeyRender : Option Render := {d['dedupKeyRender']}")
+    o.append("/-- `_handle_join_column_names_only`: the rendering of the key that is looked up in a CTE's `named_selects` (plain names) -/")
+    o.append(f"def keyLookupRender : Render := {KEY_LOOKUP[0]}")
     o.append("/-- whose display names (user spelling of a column name) the joined DataFrame keeps, in order of precedence -/")
     o.append("def joinDisplayOrder : List Side := [" + ", ".join(d["displayOrder"]) + "]")
     o.append("/-- join types whose select list is built from one side only -/")
@@ -574,6 +635,254 @@ def gen_joins(repo: str) -> str:
     return "\n".join(o) + "\n"
 
 
+# ----------------------------------------------------------------------------------------------
+# Gen/JoinMerge.lean: _add_ctes_to_expression, _expand_star, the star handling of select
+# ----------------------------------------------------------------------------------------------
+
+OBM = "Gen.JoinMerge"
+
+
+def _is_call_on(node: ast.AST, recv: str, meth: str) -> bool:
+    return isinstance(node, ast.Call) and isinstance(node.func, ast.Attribute) and node.func.attr == meth and ast.unparse(node.func.value) == recv
+
+
+def _merge_flags(fn: ast.FunctionDef) -> t.Dict[str, bool]:
+    """symbolic execution of the loop `for cte in ctes:` of _add_ctes_to_expression"""
+    ob = OBM + ".addCtes"
+    body = _strip_doc(fn.body)
+    params = [a.arg for a in fn.args.args]
+    if params != ["self", "expression", "ctes"]:
+        raise Untranslatable(ob, f"parameters {params}")
+    src = [ast.unparse(x) for x in body]
+    if len(body) != 5 or src[0] != "expression = expression.copy()" or src[1] != "with_expression = expression.args.get('with')" \
+            or not isinstance(body[2], ast.If) or ast.unparse(body[2].test) != "with_expression" \
+            or src[3] != "expression.set('with', exp.With(expressions=existing_ctes))" or src[4] != "return expression":
+        raise Untranslatable(ob, "unsupported frame of the function (copy / with / if with_expression / set with / return)")
+    top = body[2]
+    if [ast.unparse(x) for x in top.orelse] != ["existing_ctes = ctes"]:
+        raise Untranslatable(ob, f"unsupported branch for an expression without WITH: {[ast.unparse(x) for x in top.orelse]}")
+    pre = [x for x in top.body if not isinstance(x, ast.For)]
+    loops = [x for x in top.body if isinstance(x, ast.For)]
+    pre_src = sorted(ast.unparse(x).split("  #")[0] for x in pre)
+    want = sorted(["existing_ctes = with_expression.expressions", "existing_cte_names = {x.alias_or_name for x in existing_ctes}", "replaced_cte_names = {}"])
+    if pre_src != want or len(loops) != 1 or top.body[-1] is not loops[0]:
+        raise Untranslatable(ob, f"unsupported set-up before the loop: {pre_src}")
+    loop = loops[0]
+    if ast.unparse(loop.target) != "cte" or ast.unparse(loop.iter) != "ctes" or loop.orelse:
+        raise Untranslatable(ob, f"unsupported loop header {ast.unparse(loop.target)} in {ast.unparse(loop.iter)}")
+    renames_before: t.Optional[bool] = None
+    seen_test = False
+    appended = False
+    flags: t.Dict[str, bool] = {}
+    for st in loop.body:
+        if appended:
+            raise Untranslatable(ob, "statements after existing_ctes.append(cte)")
+        u = ast.unparse(st)
+        if isinstance(st, ast.If) and ast.unparse(st.test) == "replaced_cte_names":
+            if [ast.unparse(x) for x in st.body] != ["cte = cte.transform(replace_id_value, replaced_cte_names)"] or st.orelse:
+                raise Untranslatable(ob, f"unsupported application of the recorded renames: {u[:120]!r}")
+            if seen_test:
+                raise Untranslatable(ob, "recorded renames are applied after the name test")
+            renames_before = True
+        elif u == "cte = cte.transform(replace_id_value, replaced_cte_names)":
+            if seen_test:
+                raise Untranslatable(ob, "recorded renames are applied after the name test")
+            renames_before = True
+        elif isinstance(st, ast.If) and ast.unparse(st.test) == "cte.alias_or_name in existing_cte_names":
+            if seen_test or st.orelse:
+                raise Untranslatable(ob, "unsupported name test")
+            seen_test = True
+            flags.update(_clash_branch(st.body, ob))
+        elif u == "existing_ctes.append(cte)":
+            appended = True
+        else:
+            raise Untranslatable(ob, f"unsupported statement in the loop: {u[:120]!r}")
+    if not seen_test or not appended:
+        raise Untranslatable(ob, "name test or append not found in the loop")
+    flags["mergeRenamesBeforeTest"] = bool(renames_before)
+    return flags
+
+
+def _clash_branch(stmts: t.List[ast.stmt], ob: str) -> t.Dict[str, bool]:
+    """the branch taken for a CTE whose name is taken: track what `cte`'s alias is (old / new) statement by statement"""
+    new_names: t.Set[str] = set()      # local names holding the new name (a string, an Identifier or a TableAlias made from it)
+    alias_is_new = False
+    key_old: t.Optional[bool] = None
+    records_new = False
+    body_rewritten = False
+
+    def is_new_name(node: ast.AST) -> bool:
+        """an expression that denotes the new name"""
+        if isinstance(node, ast.Name):
+            return node.id in new_names
+        if isinstance(node, ast.Call) and isinstance(node.func, ast.Name) and node.func.id == "maybe_parse" and node.args:
+            kw = {k.arg: ast.unparse(k.value) for k in node.keywords}
+            return is_new_name(node.args[0]) and kw.get("into") in ("exp.Identifier", "exp.TableAlias") and set(kw) <= {"dialect", "into"}
+        if isinstance(node, ast.Call) and isinstance(node.func, ast.Attribute) and node.func.attr == "copy" and not node.args:
+            return is_new_name(node.func.value)
+        if isinstance(node, ast.Attribute) and node.attr == "this":
+            return is_new_name(node.value)
+        if isinstance(node, ast.Call) and ast.unparse(node.func) == "exp.to_identifier" and len(node.args) == 1 and not node.keywords:
+            return is_new_name(node.args[0])
+        return False
+
+    for st in stmts:
+        u = ast.unparse(st)
+        if isinstance(st, ast.Assign) and len(st.targets) == 1 and isinstance(st.targets[0], ast.Name):
+            tgt = st.targets[0].id
+            if tgt == "random_filter" and u == "random_filter = exp.Literal.string(uuid.uuid4().hex)":
+                continue
+            if tgt == "query" and u == "query = cte.this":
+                continue
+            if ast.unparse(st.value) == "self._create_hash_from_expression(cte.this)":
+                if not body_rewritten:
+                    raise Untranslatable(ob, "the new name is hashed before the body was made unique")
+                new_names.add(tgt)
+                continue
+            if is_new_name(st.value):
+                new_names.add(tgt)
+                continue
+            raise Untranslatable(ob, f"unsupported assignment in the renaming branch: {u[:120]!r}")
+        if isinstance(st, ast.If) and ast.unparse(st.test) == "not isinstance(query, exp.Select)":
+            # a set operation is wrapped into SELECT <its columns> FROM (<it>): value-preserving, only `query` is assigned
+            if st.orelse or len(st.body) != 1 or not (isinstance(st.body[0], ast.Assign) and ast.unparse(st.body[0].targets[0]) == "query"):
+                raise Untranslatable(ob, f"unsupported rewrite of a non-SELECT body: {u[:120]!r}")
+            continue
+        if u == "cte.set('this', query.where(exp.EQ(this=random_filter, expression=random_filter)))":
+            body_rewritten = True
+            continue
+        if isinstance(st, ast.Expr) and _is_call_on(st.value, "cte", "set") and len(st.value.args) == 2 and ast.unparse(st.value.args[0]) == "'alias'":
+            if not is_new_name(st.value.args[1]):
+                raise Untranslatable(ob, f"the clashing CTE's alias is set to something that is not the new name: {u[:120]!r}")
+            alias_is_new = True
+            continue
+        if isinstance(st, ast.Assign) and len(st.targets) == 1 and isinstance(st.targets[0], ast.Subscript) and ast.unparse(st.targets[0].value) == "replaced_cte_names":
+            key = ast.unparse(st.targets[0].slice)
+            if key not in ("cte.args['alias'].this", "cte.args['alias'].this.copy()"):
+                raise Untranslatable(ob, f"unsupported key of the rename mapping: {key!r}")
+            if not is_new_name(st.value):
+                raise Untranslatable(ob, f"the rename mapping's value is not the new name: {u[:120]!r}")
+            if key_old is not None:
+                raise Untranslatable(ob, "the rename is recorded twice")
+            key_old = not alias_is_new
+            continue
+        if isinstance(st, ast.Expr) and _is_call_on(st.value, "existing_cte_names", "add") and len(st.value.args) == 1 and is_new_name(st.value.args[0]):
+            records_new = True
+            continue
+        raise Untranslatable(ob, f"unsupported statement in the renaming branch: {u[:120]!r}")
+    if not alias_is_new:
+        raise Untranslatable(ob, "a CTE whose name is taken keeps its name")
+    if key_old is None:
+        raise Untranslatable(ob, "the rename is never recorded")
+    return {"mergeKeyIsOldName": key_old, "mergeRecordsNewName": records_new}
+
+
+def _star_flags(cls: ast.ClassDef) -> t.Dict[str, bool]:
+    ob = OBM + ".expandStar"
+    fn = find_func(cls.body, "_expand_star")
+    body = [x for x in _strip_doc(fn.body) if not isinstance(x, (ast.Import, ast.ImportFrom))]
+    if len(body) != 2 or not isinstance(body[0], ast.If) or ast.unparse(body[1]) != "return [col]":
+        raise Untranslatable(ob, "unsupported frame (if star / elif qualified star / return [col])")
+    top = body[0]
+    if ast.unparse(top.test) != "isinstance(col.column_expression, exp.Star)" or len(top.body) != 1 or not isinstance(top.body[0], ast.Return):
+        raise Untranslatable(ob, f"unsupported plain-star branch {ast.unparse(top.test)!r}")
+    plain = ast.unparse(top.body[0].value)
+    if plain != "self._get_outer_select_columns(self.expression)":
+        raise Untranslatable(ob, f"unsupported expansion of `*`: {plain!r}")
+    if len(top.orelse) != 1 or not isinstance(top.orelse[0], ast.If) or top.orelse[0].orelse:
+        raise Untranslatable(ob, "qualified-star branch not found")
+    q = top.orelse[0]
+    want_test = "isinstance(col.column_expression, exp.Column) and isinstance(col.column_expression.this, exp.Star) and col.column_expression.args.get('table')"
+    if ast.unparse(q.test) != want_test:
+        raise Untranslatable(ob, f"unsupported qualified-star test {ast.unparse(q.test)!r}")
+    if len(q.body) != 2 or not isinstance(q.body[0], ast.For) or not isinstance(q.body[1], ast.Raise):
+        raise Untranslatable(ob, "unsupported qualified-star branch (for cte ...: if ...: return; raise)")
+    loop = q.body[0]
+    if ast.unparse(loop.target) != "cte" or ast.unparse(loop.iter) != "self.expression.ctes" or len(loop.body) != 1 or not isinstance(loop.body[0], ast.If):
+        raise Untranslatable(ob, f"unsupported search for the star's table: {ast.unparse(loop)[:100]!r}")
+    hit = loop.body[0]
+    if ast.unparse(hit.test) != "cte.alias_or_name == col.column_expression.args['table'].this" or hit.orelse or len(hit.body) != 1 or not isinstance(hit.body[0], ast.Return):
+        raise Untranslatable(ob, f"unsupported table match {ast.unparse(hit.test)!r}")
+    ret = hit.body[0].value
+    rs = ast.unparse(ret)
+    if rs == "self._get_outer_select_columns(cte)":
+        qualified = False
+    elif (isinstance(ret, ast.ListComp) and len(ret.generators) == 1 and not ret.generators[0].ifs and ast.unparse(ret.generators[0].target) == "x"
+          and ast.unparse(ret.generators[0].iter) == "self._get_outer_select_columns(cte)"):
+        el = ast.unparse(ret.elt)
+        if el in ("Column.ensure_col(exp.column(x.column_alias_or_name, cte.alias_or_name))", "Column(exp.column(x.column_alias_or_name, cte.alias_or_name))"):
+            qualified = True
+        elif el in ("x", "Column.ensure_col(exp.column(x.column_alias_or_name))", "Column.ensure_col(x.column_alias_or_name)"):
+            qualified = False
+        else:
+            raise Untranslatable(ob, f"unsupported expansion of `t.*`: {el!r}")
+    else:
+        raise Untranslatable(ob, f"unsupported expansion of `t.*`: {rs[:100]!r}")
+    flags = {"starPlainFromSelect": True, "starQualifiedByCte": qualified}
+
+    # _ensure_and_normalize_cols: normalize, then expand the stars, then resolve ambiguous names
+    ob2 = OBM + ".ensureAndNormalizeCols"
+    en = find_func(cls.body, "_ensure_and_normalize_cols")
+    stmts = [ast.unparse(x) for x in _strip_doc(en.body) if not isinstance(x, (ast.Import, ast.ImportFrom))]
+    want = [
+        "cols = [col.copy() for col in self._ensure_list_of_columns(cols)]",
+        "normalize(self.session, expression or self.expression, cols)",
+        "if not skip_star_expansion:\n    cols = list(flatten([self._expand_star(col) for col in cols]))",
+        "self._resolve_ambiguous_columns(cols)",
+        "return cols",
+    ]
+    if stmts == want:
+        flags["expandBeforeResolve"] = True
+    elif sorted(stmts) == sorted(want) and stmts[0] == want[0] and stmts[-1] == want[-1] and stmts.index(want[1]) < min(stmts.index(want[2]), stmts.index(want[3])):
+        flags["expandBeforeResolve"] = stmts.index(want[2]) < stmts.index(want[3])
+    else:
+        raise Untranslatable(ob2, f"unsupported body: {stmts}")
+
+    # select: the positions of star arguments are removed from the two display-name lists
+    ob3 = OBM + ".selectStarPositions"
+    sel = find_func(cls.body, "select")
+    pops = [n for n in ast.walk(sel) if isinstance(n, ast.For) and any(_is_call_on(getattr(x, "value", None), "unexpanded_columns", "pop") for x in n.body)]
+    if len(pops) != 1:
+        raise Untranslatable(ob3, f"{len(pops)} loops removing star positions")
+    lp = pops[0]
+    if sorted(ast.unparse(x) for x in lp.body) != ["unexpanded_columns.pop(index)", "user_cols.pop(index)"] or ast.unparse(lp.target) != "index":
+        raise Untranslatable(ob3, f"unsupported removal {ast.unparse(lp)[:120]!r}")
+    it = ast.unparse(lp.iter)
+    if it in ("reversed(star_columns)", "star_columns[::-1]", "sorted(star_columns, reverse=True)"):
+        flags["starPopsBackToFront"] = True
+    elif it in ("star_columns", "sorted(star_columns)"):
+        flags["starPopsBackToFront"] = False
+    else:
+        raise Untranslatable(ob3, f"unsupported order of removal {it!r}")
+    finder = [n for n in ast.walk(sel) if isinstance(n, ast.For) and ast.unparse(n.iter) == "enumerate(cols)"]
+    if len(finder) != 1 or ast.unparse(finder[0].body[0]) != "if '*' in (user_col if isinstance(user_col, str) else user_col.alias_or_name):\n    star_columns.append(index)":
+        raise Untranslatable(ob3, "unsupported detection of star arguments")
+    return flags
+
+
+def gen_join_merge(repo: str) -> str:
+    mod = parse(repo, SRC)
+    cls = find_class(mod, "BaseDataFrame")
+    flags = _merge_flags(find_func(cls.body, "_add_ctes_to_expression"))
+    flags.update(_star_flags(cls))
+    doc = {
+        "mergeRenamesBeforeTest": "`_add_ctes_to_expression`: the renames recorded so far are applied to a CTE (its name and every identifier in its body) before its name is tested",
+        "mergeKeyIsOldName": "… the rename of a CTE whose name is taken is recorded under the name it HAD (the key is read before the alias is replaced)",
+        "mergeRecordsNewName": "… the new name joins the set of taken names",
+        "starPlainFromSelect": "`_expand_star`: `*` is the current select list, by bare name",
+        "starQualifiedByCte": "`_expand_star`: `t.*` is the column list of the CTE t, each column qualified with t",
+        "expandBeforeResolve": "`_ensure_and_normalize_cols`: stars are expanded before `_resolve_ambiguous_columns` sees the list",
+        "starPopsBackToFront": "`select`: the positions of star arguments are removed from the display-name lists back to front",
+    }
+    o: t.List[str] = [HEADER, "namespace Sqlframe.Gen", ""]
+    for k in ["mergeRenamesBeforeTest", "mergeKeyIsOldName", "mergeRecordsNewName", "starPlainFromSelect", "starQualifiedByCte", "expandBeforeResolve", "starPopsBackToFront"]:
+        o.append(f"/-- {doc[k]} -/")
+        o.append(f"def {k} : Bool := {str(flags[k]).lower()}")
+    o.append("")
+    o.append("end Sqlframe.Gen")
+    return "\n".join(o) + "\n"
+
+
 def lean_char(c: str) -> str:
     if c == "'":
         return "'\\''"
@@ -582,4 +891,4 @@ def lean_char(c: str) -> str:
     return "'" + c + "'"
 
 
-GENERATORS = {"Joins": gen_joins}
+GENERATORS = {"Joins": gen_joins, "JoinMerge": gen_join_merge}
